@@ -75,7 +75,8 @@ struct Reader {
 // The copy ends exactly at the end of its heap block; it starts g_misalign bytes (rounded down to a whole unit) past a
 // 16-byte boundary, so word-at-a-time code in the library sees every source alignment.  g_misalign is a pure function of
 // the case bytes (engine: case_environment), 0 for half of the cases.
-inline unsigned g_misalign = 0;
+inline unsigned g_misalign = 0, g_misalign2 = 0, g_exact_seq = 0;   // every second exact-size copy of a case uses g_misalign2: two operands get different alignments
+inline unsigned next_misalign() { return (g_exact_seq++ & 1) ? g_misalign2 : g_misalign; }
 // errno as an earlier, unrelated call of the program may have left it (0 in half of the cases, else ERANGE / EINVAL / EDOM):
 // pre_errno() is called by the harnesses right before calls into the library that parse numbers or format
 inline int g_errno_pre = 0;
@@ -85,13 +86,15 @@ inline void case_environment(const uint8_t *d, size_t n) {
     for (size_t i = 0; i < n; i++) { h ^= d[i]; h *= 1099511628211ull; }
     h ^= h >> 29;
     g_misalign = (h & 8) ? (unsigned)(h & 7) : 0;
+    g_misalign2 = (h & 8) ? (unsigned)((h >> 12) & 7) : 0;
+    g_exact_seq = 0;
     static const int kErr[8] = {0, ERANGE, 0, EINVAL, 0, ERANGE, 0, EDOM};
     g_errno_pre = kErr[(h >> 4) & 7];
 }
 template <class T> struct Exact {
     T *p; size_t n; void *base;
     Exact(const T *src, size_t count, bool nul = false) : n(count) {
-        const size_t off = (g_misalign & 7) / sizeof(T) * sizeof(T);
+        const size_t off = (next_misalign() & 7) / sizeof(T) * sizeof(T);
         const size_t bytes = (count + (nul ? 1 : 0)) * sizeof(T);
         base = ::malloc(off + bytes + (off + bytes == 0 ? 1 : 0));
         p = reinterpret_cast<T *>(static_cast<char *>(base) + off);
